@@ -169,7 +169,8 @@ def compare_all(spec, factors, mode, variants=VARIANTS):
     ref = run_variant(spec, factors, mode, False, False, False, False)
     dis = []
     for name, nb, upd, reuse, one in variants:
-        got = run_variant(spec, factors, mode, nb, upd, reuse, one)
+        fs = factors if one or nb else factors[:1]       # a fresh net per step adds nothing after the first step
+        got = run_variant(spec, fs, mode, nb, upd, reuse, one)
         for step, ((rs, rsnap, _), (gs, gsnap, gmsg)) in enumerate(zip(ref, got)):
             if rs != gs:
                 dis.append((name, step, "status", "%s (reference: %s) %s" % (gs, rs, gmsg[:120]), [gs]))
